@@ -45,14 +45,21 @@ class HostCallable(tae.HostObject):
         base = STensor.symbols(self.tag, self.shape)
         if args:
             c = args[0]
-            return base.mul(c) if isinstance(c, (STensor, Rat, int, Fraction)) else base
+            base = base.mul(c) if isinstance(c, (STensor, Rat, int, Fraction)) else base
+        for k in sorted(kwargs):  # keyword conditioning (e.g. gain=...) enters the prediction as well
+            v = kwargs[k]
+            if isinstance(v, (STensor, Rat, int, Fraction)):
+                base = base.mul(v)
         return base
 
 
-def clone_fresh(it: Interp, t: ModObj) -> ModObj:
-    """Twin with the same parameters/grid/conditioning, but without the derived buffers u, v (recomputed by update())."""
+def clone_fresh(it: Interp, t: ModObj, cond=None) -> ModObj:
+    """Twin with the same parameters/grid/conditioning, but without the derived buffers u, v (recomputed by update()).
+    ``cond`` = (args, kwargs) of the last conditioning the history gave this transform (the twin holds exactly that)."""
     c = ModObj(t.cls)
     c.attrs = dict(t.attrs)
+    if cond is not None:
+        c.attrs["_args"], c.attrs["_kwargs"] = tuple(cond[0]), dict(cond[1])
     for k in ("_buffers", "_modules", "_parameters"):
         c.attrs[k] = OrderedDict(t.attrs[k])
     c.attrs["_non_persistent_buffers_set"] = set(t.attrs["_non_persistent_buffers_set"])
@@ -66,8 +73,8 @@ def clone_fresh(it: Interp, t: ModObj) -> ModObj:
     return c
 
 
-def fresh_tensor(it: Interp, t: ModObj) -> STensor:
-    c = clone_fresh(it, t)
+def fresh_tensor(it: Interp, t: ModObj, cond=None) -> STensor:
+    c = clone_fresh(it, t, cond)
     it.method(c, "update")
     return it.method(c, "tensor")
 
@@ -137,7 +144,37 @@ def _ops(env: TEnv, kind: str, cls: str) -> Dict[str, Tuple[Callable[[ModObj], A
 
     def condition_(t):
         env.counter += 1
-        it.method(t, "condition_", Rat.atom(f"cond{env.counter}"))
+        a = Rat.atom(f"cond{env.counter}")
+        it.method(t, "condition_", a)
+        env.cond = ((a,), {})
+
+    def condition_kw(t):
+        env.counter += 1
+        a, g_ = Rat.atom(f"cond{env.counter}"), Rat.atom(f"gain{env.counter}")
+        it.method(t, "condition_", a, gain=g_)
+        env.cond = ((a,), {"gain": g_})
+
+    def condition_copy(t):
+        # conditioning a *copy* (functional condition(...)) with keyword arguments must leave this transform's conditioning alone
+        env.counter += 1
+        it.method(t, "condition", Rat.atom(f"cond{env.counter}"), gain=Rat.atom(f"gain{env.counter}"))
+
+    def data_copy(t):
+        p = it.method(t, "data")
+        return it.method(t, "data", env.sym(list(p.shape)))
+
+    def grid_copy(t):
+        cur = it.method(t, "grid")
+        return it.method(t, "grid", env.grid2 if cur is env.grid else env.grid)
+
+    def net_step(t):
+        # an optimiser step on the predicting network: the next update() must see the new prediction
+        net = t.attrs.get("params")
+        if not isinstance(net, HostCallable):
+            raise AnalysisError("network-step scenario: the predicting callable is not stored under 'params'")
+        if isinstance(net, HostCallable):
+            env.counter += 1
+            net.tag = f"net{env.counter}_"
 
     def reset(t):
         it.method(t, "reset_parameters")
@@ -157,6 +194,13 @@ def _ops(env: TEnv, kind: str, cls: str) -> Dict[str, Tuple[Callable[[ModObj], A
 
     ops: Dict[str, Tuple[Callable, bool]] = {"update": (update, False), "call": (call, False), "disp": (disp, False),
                                               "clear_buffers": (clear, False), "condition_": (condition_, True)}
+    if kind == "callable":
+        ops["condition_(kw)"] = (condition_kw, True)
+        ops["condition(kw) of a copy"] = (condition_copy, False)
+        ops["network step"] = (net_step, False)
+    else:
+        ops["data(p) copy"] = (data_copy, True)
+        ops["grid(g) copy"] = (grid_copy, True)
     if kind != "callable":
         ops["grid_"] = (grid_, True)  # with callable parameters the callable itself must follow the new grid: out of scope here
         ops["data_"] = (data_, True)
@@ -185,7 +229,9 @@ def run_histories(ctx: Ctx, max_len: int = 2) -> None:
                            "old spline at the coincident samples (function preserved); dense models keep the world displacement (vectors re-expressed "
                            "in the new grid's convention)")
     kinds = ["parameter", "buffer", "tensor", "callable"]
-    tasks = [(ctx, mod, cls, kw, kind, max_len) for mod, cls, kw in NONRIGID for kind in kinds]
+    # plus the dense models with resize=False (the buffered field is then the parameter tensor itself, not a resized copy)
+    configs = NONRIGID + [(NONRIGID[0][0], NONRIGID[0][1], {"resize": False}), (NONRIGID[1][0], NONRIGID[1][1], {"steps": 1, "resize": False})]
+    tasks = [(ctx, mod, cls, kw, kind, max_len) for mod, cls, kw in configs for kind in kinds]
     import multiprocessing as mp
     global _TASKS
     _TASKS = tasks
@@ -199,7 +245,7 @@ def run_histories(ctx: Ctx, max_len: int = 2) -> None:
             raise AnalysisError(f"T6x histories {cls}/{kind}: {err}")
         ci = prog.cls(mod, cls)
         anchor = prog.find_method(ci, "update")
-        inst = f"{cls}:{kind}"
+        inst = f"{cls}:{kind}" + (":resize=False" if kw.get("resize") is False else "")
         ctx.ob("T6x.call-fresh", inst, not bad_call, {"histories": n_seqs, "example": example})
         ctx.ob("T6x.replace-fresh", inst, not bad_rep, {"histories": n_seqs})
         ctx.extra.setdefault("histories_explored", 0)
@@ -232,15 +278,19 @@ def _history_worker(i: int):
                 t = env.make(mod, cls, kw, kind)
                 it.method(t, "update")  # buffers are populated before the history starts (worst case for staleness)
                 for name in seq:
-                    ops[name][0](t)
+                    r_ = ops[name][0](t)
+                    if isinstance(r_, ModObj):
+                        if r_ is t:
+                            bad_rep.append(" -> ".join(seq) + ": functional setter returned the transform itself")
+                        t = r_  # functional setters return a new transform: the history continues on it
                 if ops[seq[-1]][1]:
                     got = it.method(t, "tensor")
-                    want = fresh_tensor(it, t)
+                    want = fresh_tensor(it, t, getattr(env, "cond", None))
                     if not teq(got, want):
                         bad_rep.append(" -> ".join(seq))
                         continue
                 x = STensor.symbols("x", [1, 2, env.D])
-                want_c = clone_fresh(it, t)
+                want_c = clone_fresh(it, t, getattr(env, "cond", None))
                 it.method(want_c, "update")
                 want = it.method(want_c, "forward", x)
                 got = it.call_value(t, [x], {})
